@@ -39,6 +39,7 @@ func drawBytes(t *rapid.T, n int, label string) []byte {
 var interestingTexts = []string{
 	"a", "BL", "PRoT", "1.2.3", "sha-256", "héllo wörld", "日本語", "a\"b\\c", "\x00", "  ",
 	"<script>&amp;</script>", "\n\t\r", " ", "\u007f", "🙂", "é", "\ufeffbom", "null", "0",
+	"https://psa-verifier.org?a=1&b=<2>", `\u0026`, `a\u003cb\u003e`, `\`, `\\u0026amp;`, "</script>", "\u2028\u2029", `"`, `\"`, "\x7f\x1f", `{"psa-profile":"x"}`,
 	"https://psa-verifier.org", "very long text very long text very long text very long text very long text",
 }
 
@@ -72,6 +73,14 @@ func drawHashLen(t *rapid.T, label string) int {
 }
 
 func drawBadLen(t *rapid.T, label string, good func(int) bool, near []int) int {
+	if rapid.IntRange(0, 15).Draw(t, label+".wrap") == 0 {
+		// a length whose low 8 bits are a good length
+		for k := 0; k <= 80; k++ {
+			if good(k) && !good(256+k) {
+				return 256 + k
+			}
+		}
+	}
 	if genBool.Draw(t, label+".near") {
 		return rapid.SampledFrom(near).Draw(t, label)
 	}
